@@ -444,6 +444,10 @@ impl<'a> Parser<'a> {
 
     /// Parses multi-select lists (e.g., "[foo, bar, baz]")
     fn parse_multi_list(&mut self) -> ParseResult {
+        if self.peek(0) == &Token::Rbracket {
+            let message = "Expected at least one expression in a multi-select list";
+            return Err(self.err(self.peek(0), message, true));
+        }
         Ok(Ast::MultiList {
             offset: self.offset,
             elements: self.parse_list(Token::Rbracket)?,
